@@ -1,6 +1,54 @@
 """C14: see clusfam.py and DESIGN.md section 5."""
+import json
+import subprocess
+
 import clusfam
+import vlib
+
+
+def groups_stop(ctx):
+    """'After a deletion ... its partitions stop serving': on the real control plane (cmd/ctrl) every running raft group
+    belongs to a loaded partition of a dataset of the catalogue - also when a fast replay lets the allocator loop get to
+    a new partition only after a later entry added this node to it (ControlPlaneTrace GroupOutlivesPartition)."""
+    import c18
+    ctrl = ctx.go_build("cmd/ctrl", "ctrl")
+    lines = []
+    scs = c18.replay_readd() + [{"name": "delete", "steps": ["create:1", "create:1", "settle", "delete", "delete"]}]
+    for i, sc in enumerate(scs):
+        tr = ctx.path("ctrl14-%d.ndjson" % i)
+        for attempt in (1, 2):
+            try:
+                subprocess.run([ctrl, tr, json.dumps(sc)], stdout=subprocess.PIPE, stderr=subprocess.PIPE, timeout=90, env=vlib.goenv())
+                lines.append(open(tr).read().strip().splitlines()[-1])
+                break
+            except Exception:
+                if attempt == 2:
+                    raise vlib.NoVerdict("control-plane harness produced no event twice for %s" % json.dumps(sc))
+    trace = ctx.path("ctrl14.ndjson")
+    open(trace, "w").write("\n".join(lines) + "\n")
+    viols, n = vlib.validate_trace(ctx, "ControlPlaneTrace", "ControlPlaneTrace.cfg", trace, lambda l: True)
+    evs = [json.loads(x) for x in lines]
+    by = {}
+    for v in viols:
+        if v[1] == "GroupOutlivesPartition":
+            by.setdefault("GroupOutlivesPartition@%s" % evs[v[0]]["name"], []).append(evs[v[0]])
+    for sig in sorted(by):
+        e = min(by[sig], key=lambda x: len(x["steps"]))
+        ctx.finding(sig, "%s: entries %s -> %d raft group(s) run that belong to no loaded partition of the catalogue (%d such runs)"
+                    % (sig, e["steps"], e["extragroups"], len(by[sig])), {"scenario": {"name": e["name"], "steps": e["steps"]}, "event": e})
+    ctx.log("%d control-plane sequences: running raft groups against the catalogue: %d failed checks" % (n, sum(len(x) for x in by.values())))
+    mut = json.loads(json.dumps(evs[:1]))
+    mut[0]["extragroups"] = 1
+    p = ctx.path("selfgroups.ndjson")
+    open(p, "w").writelines(json.dumps(e) + "\n" for e in mut)
+    v2, _ = vlib.validate_trace(ctx, "ControlPlaneTrace", "ControlPlaneTrace.cfg", p, lambda l: True)
+    ctx.cov["binding_selftest"]["leaked_raft_group_rejected"] = any(x[1] == "GroupOutlivesPartition" for x in v2)
+    if not ctx.cov["binding_selftest"]["leaked_raft_group_rejected"]:
+        raise vlib.NoVerdict("binding self-test failed: a leaked raft group was accepted")
 
 
 def run(ctx):
-    return clusfam.run_family(ctx)
+    level = clusfam.run_family(ctx)
+    if not ctx.replay:
+        groups_stop(ctx)
+    return level
